@@ -65,6 +65,17 @@ func runC13(c *core.Ctx) {
 	checkHandOffSynchronous(c, "R13.7")
 	c.Rule("R13.8", "the request rebuilt for a retry asks for every key still owed: each entry of the tracker table reaches the rebuilt request", 1)
 	checkRebuildKeepsEveryEntry(c, "R13.8")
+	c.Rule("R13.13", "every variable index into a fixed-size package-level table of the pool is kept below the table's size by a dominating comparison: the pool's goroutines run outside any recover, an index out of range there ends the process", 3)
+	checkFixedTableIndices(c, "R13.13")
+	c.Rule("R13.12", "a caller never abandons its reply channel while the pool may still send on it: the loops receiving the replies of a multi-key request run until the channel is closed (or leave on the retry marker only if recovery sends it at most once per channel)", 2)
+	checkCallersKeepReceiving(c, "R13.12")
+	c.Share(map[string]string{"R6.3": "R13.11"}, runC06) // recovery tells a caller to retry only if its channel's count of outstanding replies is right
+	c.Rule("R13.10", "the table of replies still owed is a multiset (populated by counting): an entry is deleted only when its count is one, otherwise decremented - or a retry asks for fewer keys than are owed", 2)
+	checkOwedMultiset(c, "R13.10")
+	c.Rule("R13.9", "the table recovery consults to decide who still waits loses a reply's entry only when that reply is handed over: between the removal and the send (or the next header read) the reader cannot fail into recovery", 2)
+	if rd != nil {
+		checkBookkeepingAtHandOver(c, "R13.9", rd)
+	}
 }
 
 // checkCountedOff (R13.4): every reply the reader delivers is counted off the channel's outstanding-reply count
@@ -312,16 +323,9 @@ func checkRecovery(c *core.Ctx) {
 	c.Check(inRange && closesKey, "R13.2", "recoveryMonitor#close-all", c.P.Pos(closeIns.Pos()), "every channel of the handed-over batch is closed", "recovery does not close every channel of the unfinished batch: callers ranging over their reply channel never finish")
 	markerOK := markerSend != nil && rl != nil && rl.Blocks[markerSend.Block()]
 	if markerOK {
-		// before the close in the same iteration, guarded by outstanding > 0
-		hit, _ := (ssax.Reach{Target: func(ins ssa.Instruction) bool { return ins == markerSend }, Within: rl.Blocks}).From(closeIns)
-		_ = hit
-		guarded := false
-		for _, ec := range ssax.DomConds(markerSend.Block()) {
-			if bo, ok := ec.Cond.(*ssa.BinOp); ok && ec.True && bo.Op == token.GTR {
-				guarded = true
-			}
-		}
-		markerOK = guarded
+		// in the same iteration as the close, guarded by "this channel still waits": outstanding count > 0, or
+		// membership among the handles still owed
+		_, markerOK = markerGuardTables(markerSend)
 	}
 	c.Check(markerOK, "R13.2", "recoveryMonitor#retry-marker", pos, "channels with replies outstanding get the retry marker before they are closed", "recovery does not tell callers with outstanding replies to retry: their call ends without an outcome")
 	// order: range loop, then reconnect, then signal
